@@ -189,6 +189,7 @@ def run(ctx):
             pws += gen_passwords.WALKS + ['monkey' + w for w in gen_passwords.WALKS] + [w + 'Summer1' for w in gen_passwords.WALKS]
             pws += gen_passwords.CASED_SYMBOL_CORPUS      # symbols that str.lower() changes, in front of / behind letter runs
             pws += gen_passwords.CONTEXT_CASE_CORPUS      # context strings in a capitalisation the trainer's list does not contain
+            pws += gen_passwords.REPEATED_CONTEXT_CORPUS  # the same context string several times in one section
         if i == 2:
             pws = gen_passwords.FRESH_LENGTHS_CORPUS + pws
         if not tame:
